@@ -497,7 +497,7 @@ def run(ctx: Context):
         repl_all = [n for n in cfg.nodes if n.kind == "stmt" and P0 in node_stores(n)]
         repl = [n for n in repl_all if isinstance(n.ast, ast.Assign)
                 and any(isinstance(t, ast.Name) and t.id == P0 for t in n.ast.targets)
-                and P1 in depends_on(fn, n.ast.value)]
+                and P1 in depends_on(fn, n.ast.value) and not _mentions(n.ast.value, P0)]
         if not repl:
             raise AnchorVanished("update_metadata: replacement of %s by the caller's %s not found" % (P0, P1))
         dels = _subscript_deletes(cfg)
